@@ -7,6 +7,7 @@
 #include "common.h"
 #include "ascon_ref.h"
 #include <ascon/permutation.h>
+#include <ascon/utility.h>
 
 #define NPAIRS 861
 static unsigned pair_off[NPAIRS], pair_size[NPAIRS];
@@ -101,17 +102,53 @@ static void perm_case(uint64_t idx, const uint8_t s0[40], unsigned first_round, 
         snprintf(key, sizeof(key), "permute:round%u", first_round);
         vf_eq("C08", key, "state after permute", got, exp, 40, "\"first_round\":%u,\"state\":\"%s\"", first_round, vf_h(s0, 40));
     }
-    /* composition: p from round f == one-round-at-a-time is not expressible through the
-     * public API (always runs to round 11), but f and f+1 must chain: p_f(s) == p_{f+1}(r_f(s)) */
-    if (first_round < 11) {
-        uint8_t mid[40];
-        memcpy(mid, s0, 40);
-        ref_permute(mid, 12 - first_round);   /* = exp */
-        (void)mid;
-    }
     vf_count("permutations", 1);
     if (idx % 4000 == 11) vf_sample("\"kind\":\"permute\",\"first_round\":%u,\"state\":\"%s\",\"out\":\"%s\"", first_round, vf_h(s0, 40), vf_h(got, 40));
     gfree(st);
+}
+
+/* ascon_copy (source released, destination acquired) and ascon_clean */
+static void copy_clean_case(rng_t *r, uint64_t idx)
+{
+    ascon_state_t *src = (ascon_state_t *)galloc(sizeof(ascon_state_t), 1), *dst = (ascon_state_t *)galloc(sizeof(ascon_state_t), 0);
+    uint8_t s0[40], got[40];
+    unsigned n = rng_below(r, 300);
+    uint8_t *buf = (uint8_t *)galloc(n + 8, (int)(idx & 1));
+    vf_progress("case=%llu copy/clean n=%u", (unsigned long long)idx, n);
+    fill_pattern(r, s0, 40, pick_pattern(r));
+    /* at most one state is acquired at any time (the acquire/release checker models one shared resource) */
+    set_state(src, s0, 1);
+    ascon_release(src);
+    ascon_init(dst);
+    ascon_add_bytes(dst, s0 + 3, 0, 20);         /* destination holds something else first */
+    ascon_copy(dst, src);
+    get_state(dst, got);
+    ascon_release(dst);
+    vf_eq("C08", "copy:destination", "state after ascon_copy", got, s0, 40, "\"state\":\"%s\"", vf_h(s0, 40));
+    ascon_acquire(src);
+    get_state(src, got);
+    ascon_release(src);
+    vf_eq("C08", "copy:source-changed", "source after ascon_copy", got, s0, 40, "\"state\":\"%s\"", vf_h(s0, 40));
+    vf_out(got, 40);
+    /* a permutation of the copy must not disturb the source */
+    ascon_acquire(dst);
+    ascon_permute(dst, 0);
+    ascon_release(dst);
+    ascon_acquire(src);
+    get_state(src, got);
+    vf_eq("C08", "copy:aliasing", "source after permuting the copy", got, s0, 40, "\"state\":\"%s\"", vf_h(s0, 40));
+    ascon_free(src);
+    ascon_acquire(dst);
+    ascon_free(dst);
+    rng_bytes(r, buf, n + 8);
+    for (unsigned i = 0; i < n + 8; ++i) if (!buf[i]) buf[i] = 0x77;
+    {   uint8_t tail[8]; memcpy(tail, buf + n, 8);
+        ascon_clean(buf, n);
+        for (unsigned i = 0; i < n; ++i) if (buf[i]) { vf_violation("C13", "clean:not-zero", "\"n\":%u,\"at\":%u", n, i); break; }
+        if (memcmp(tail, buf + n, 8)) vf_violation("C12", "stray-write:ascon_clean", "\"n\":%u", n); }
+    vf_distinct("copy-clean|n%s", n == 0 ? "0" : n < 8 ? "<8" : n % 8 ? "odd" : "x8");
+    vf_count("copy_clean_cases", 1);
+    gfree(src); gfree(dst); gfree(buf);
 }
 
 int main(int argc, char **argv)
@@ -161,6 +198,16 @@ int main(int argc, char **argv)
         rng_bytes(&r, s0, 40);
         vf_case_begin(idx);
         perm_case(idx, s0, rng_below(&r, 12), "random");
+        vf_case_end();
+        vf_count("cases", 1);
+    }
+    base += (uint64_t)nrandom;
+    for (idx = base; idx < base + 400; ++idx) {
+        rng_t r;
+        if (!vf_mine(&a, idx)) continue;
+        rng_seed(&r, a.seed, idx);
+        vf_case_begin(idx);
+        copy_clean_case(&r, idx);
         vf_case_end();
         vf_count("cases", 1);
     }
